@@ -12,7 +12,6 @@ RULE = ("(a) messages built from a grammar of nested named, inline and unknown t
         "left normally or by an exception, on ANSI/plain/null formatters, ANSI and plain streams, plain outputs and section "
         "outputs; non-trivial = a message with >= 1 recognised tag / a style with >= 1 code / a program with >= 1 scope and >= 1 "
         "write; distinct by request")
-THEOREMS = ["built_alike", "added_alike", "ansi_plain_strip", "scanner_lossless", "sgr_exact", "line_newline", "write_line_plain_text", "indent_prefix", "indent_scopes", "scopes_are_lexical"]
 TRUSTED = ["pastel (external library) is modelled by hand in Model/Markup.v from its source; the model is compared with the "
            "installed pastel on every run through clikit's formatters"]
 ASSUMPTIONS = ["flags None, outputs not quiet (gating is C10); a section output is alone on its stream (stacking is C15)"]
